@@ -190,6 +190,100 @@ pub fn all_shuffles(root_fen: &str, max_a: usize) -> Vec<RootSpec> {
     v
 }
 
+/// the first reversible four-ply cycle a b a' b' from a position (sorted move order), if any
+pub fn first_cycle(p: &Pos) -> Option<[String; 4]> {
+    let rev = |m: &Mv| -> Option<Mv> {
+        if m.captured != 0 || kind_of(m.piece) == P || m.kind != MvKind::Normal {
+            None
+        } else {
+            Some(Mv { from: m.to, to: m.from, ..*m })
+        }
+    };
+    let mut la = p.legal();
+    la.sort_by_key(|m| m.uci());
+    for a in &la {
+        let Some(a_back) = rev(a) else { continue };
+        let p1 = p.apply(a).normalised();
+        let mut lb = p1.legal();
+        lb.sort_by_key(|m| m.uci());
+        for b in &lb {
+            let Some(b_back) = rev(b) else { continue };
+            let p2 = p1.apply(b).normalised();
+            if !p2.legal().iter().any(|m| m.uci() == a_back.uci()) {
+                continue;
+            }
+            let p3 = p2.apply(&a_back).normalised();
+            if !p3.legal().iter().any(|m| m.uci() == b_back.uci()) {
+                continue;
+            }
+            let p4 = p3.apply(&b_back).normalised();
+            if p4.key() != p.key() {
+                continue;
+            }
+            return Some([a.uci(), b.uci(), a_back.uci(), b_back.uci()]);
+        }
+    }
+    None
+}
+
+/// The dimension "move counters and long reversible histories" for every check that searches: each family root (and
+/// three mating roots) with the halfmove clock / fullmove number of its FEN set to each pair of a boundary grid (a
+/// GUI sends these with every `position fen`; the fifty-move boundary is 100), and each root after a reversible
+/// shuffle of 96..=104 and 196..=201 plies played into the record (the same boundary reached by play; lengths of both
+/// parities and residues mod 4, so the record ends in every phase of the cycle). The rules of the engine's interface
+/// know no draw claims: a position with legal moves must be answered with one of them whatever the counters say.
+pub fn counter_roots() -> Vec<RootSpec> {
+    let mut v = vec![];
+    let mut bases: Vec<String> = family_roots().iter().map(|x| x.1.to_string()).collect();
+    bases.push("6k1/8/6K1/8/8/8/8/R7 w - - 0 1".into()); // mate in one
+    bases.push("k7/8/1K6/8/8/8/8/7R b - - 0 1".into()); // defender to move, mated next move
+    bases.push("8/8/8/8/8/5k2/5p2/5K2 w - - 0 1".into()); // stalemate
+    for fen in &bases {
+        let f4: String = fen.split(' ').take(4).collect::<Vec<_>>().join(" ");
+        for (h, f) in [(1, 1), (49, 40), (50, 40), (99, 80), (100, 80), (101, 80), (150, 200), (255, 300), (9999, 9999)] {
+            v.push(RootSpec::fen(&format!("{} {} {}", f4, h, f)));
+        }
+        let Ok(parsed) = parse_fen_strict(fen) else { continue };
+        let p = parsed.pos.normalised();
+        if let Some(c) = first_cycle(&p) {
+            for len in [96usize, 97, 98, 99, 100, 101, 102, 103, 104, 196, 197, 198, 199, 200, 201] {
+                let h: Vec<&str> = (0..len).map(|i| c[i % 4].as_str()).collect();
+                v.push(RootSpec::with(fen, &h.join(" ")));
+            }
+        }
+    }
+    v
+}
+
+/// every counter / long-history root once, fresh table, depths 1..=3
+pub fn counter_histories(which: Which) -> (Acc, SpaceReport) {
+    let roots = counter_roots();
+    let t0 = std::time::Instant::now();
+    let acc = par_items(&roots, &|_, spec, acc| {
+        let (game, pos) = match spec.build() {
+            Ok(x) => x,
+            Err(e) => {
+                // a root the engine refuses or cannot replay is C17's / C02's business; here it is not searched
+                acc.count("counter roots that could not be built (reported elsewhere)");
+                acc.notes.push(format!("counter root not built: {}", e));
+                return;
+            }
+        };
+        acc.states += 1;
+        let b = Built { spec: spec.clone(), game, legal: pos.legal_uci_sorted(), pos };
+        for d in [1u8, 2, 3] {
+            let mut t = new_table();
+            let run = run_search(&b.game, &mut t, &SearchCfg::depth(d));
+            let w = format!("S[{} ; depth {}]", b.spec.text(), d);
+            let wj = J::Arr(vec![json::obj(vec![("op", json::s("search")), ("fen", json::s(b.spec.fen.clone())), ("history", json::s(b.spec.history.join(" "))), ("depth", json::i(d))])]);
+            judge(which, &b, d, &run, &w, &wj, acc);
+            acc.transitions += 1;
+        }
+    });
+    let n = acc.states;
+    (acc, SpaceReport { name: format!("move-counter and long-history roots ({} roots: FEN counters on a boundary grid, reversible shuffles of 96..=104 and 196..=201 plies), depths 1..=3", roots.len()), states: n, exhaustive: true, note: format!("[{:.1}s]", t0.elapsed().as_secs_f64()) })
+}
+
 #[derive(Clone, Debug, PartialEq)]
 pub enum Op {
     Search(usize, u8),
@@ -719,6 +813,9 @@ pub fn run(prop: &str, tier: &str, seed: i64) -> Outcome {
         acc.merge(a);
         reports.push(r);
         let (a, r) = selfplay_histories(which, tier);
+        acc.merge(a);
+        reports.push(r);
+        let (a, r) = counter_histories(which);
         acc.merge(a);
         reports.push(r);
     }
